@@ -25,7 +25,7 @@ ASSUMPTIONS = ['the template\'s unclosed <script> elements are parsed as ordinar
                'expected formats are computed by the harness from every module file under stdnum/ (not from get_number_modules())']
 
 MARKER = '"><x9q a=\'1\'>&amp;<!--'
-HOSTILE = '<>"\'&%+;=#\x00\t\n\r\x7f\xa0é٣ \ud800'
+HOSTILE = '<>"\'&%+;=#_*@!~^|`\\\x00\t\n\r\x7f\xa0\u00e9\u0663\u2028\ud800'
 RAW_QUERIES = ['', 'number=', 'number', 'number=1&number=2', 'x=1', 'x=1&number=9789024538270', 'number=%', 'number=%zz', 'number=%ff',
                'number=%C0%AF', 'number=a+b', 'number=%26%3C%3E%22%27', 'number=%00', 'number=' + '9' * 5000, 'number=%E2%80%A8',
                'NUMBER=9789024538270', 'number=9789024538270&', '&&number=9789024538270', 'number=%ED%A0%80', 'number==', 'number=%3Cscript%3E',
